@@ -107,6 +107,22 @@ class Impl:
                     except Exception:
                         self.picky.add(k)
         self.picky |= {"BaseExceptionGroup", "ExceptionGroup"}
+        # per serializer: tags its own dict_to_class override turns into plain data BEFORE the base class (and so the
+        # registry) is consulted -- read from the tree by the extractor (serpent: "float", its NaN encoding)
+        self.special_tags = {"serpent": {"float"}}
+        try:
+            import os
+            from tools.gen import gen_classtag
+            _, info = gen_classtag.gen_classtag(os.path.dirname(os.path.dirname(os.path.abspath(sz.__file__))))
+            names = {v: k for k, v in SER_IDS.items()}
+            self.special_tags = {}
+            for sid, tag, _key in info["specials"]:
+                self.special_tags.setdefault(names[sid], set()).add(tag)
+        except Exception:
+            pass
+
+    def is_special(self, ser, tag):
+        return isinstance(tag, str) and tag in self.special_tags.get(ser, ())
 
     def entry(self, ep):
         return self.api if ep == "api" else self.sz.SerializerBase if ep == "base" else self.ser_classes[ep]
@@ -152,8 +168,8 @@ class Impl:
         """the property's closed set, as tag names (independent of the model)"""
         if tag in self.fixed_tags:
             return True
-        if ser == "serpent" and tag == "float":
-            return True      # yields a float: plain data
+        if self.is_special(ser, tag):
+            return True      # the serializer turns it into a float: plain data
         if tag in self.builtin_exc or tag in self.pyro_exc:
             return True
         ns, _, short = tag.partition(".")
@@ -535,11 +551,12 @@ def oracle(case, obs):
                     bad.append(("dunder-tag-accepted", "the tag %r contains a double underscore and was not rejected" % tx))
                 elif not I.acceptable_tag(tx, case["ser"]):
                     bad.append(("unknown-tag-accepted", "the tag %r names no class of the closed set and was not rejected" % tx))
-        if len(tags) == 1 and sum(count_tagged(p) for p in obs["parts"]) == 1 and texts[0] is not None and texts[0] in reg and obs["convs"] != [texts[0]]:
+        if len(tags) == 1 and sum(count_tagged(p) for p in obs["parts"]) == 1 and texts[0] is not None and texts[0] in reg and obs["convs"] != [texts[0]] \
+                and not I.is_special(case["ser"], tags[0]):      # a serializer's own special tag never reaches the registry
             bad.append(("registered-converter-not-used", "the tag %r is registered (history %r) but serializer %s did not hand it to the converter (%s)" % (
                 texts[0], history, case["ser"], obs["exc"] or "decoded otherwise")))
         elif len(tags) == 1 and sum(count_tagged(p) for p in obs["parts"]) == 1 and texts[0] is not None and "__" in texts[0] and texts[0] not in reg and obs["exc"] != "SecurityError" \
-                and not (case["ser"] == "serpent" and tags[0] == "float"):
+                and not I.is_special(case["ser"], tags[0]):
             bad.append(("dunder-tag-not-refused", "the tag %r contains a double underscore but was not refused as such (raised %s instead of SecurityError)" % (texts[0], obs["exc"])))
     return bad
 
